@@ -343,6 +343,7 @@ func (ex *exec) applyContract(st *State, ct *Contract, fn *types.Func, recv Valu
 		names[n] = args[i]
 	}
 	pre := st.clone()
+	callSerial := freshSerial
 	short := ct.Key
 	env := &specEnv{ex: ex, st: st, old: pre, names: names, sigOverride: sig}
 	aenv := *env
@@ -438,8 +439,48 @@ func (ex *exec) applyContract(st *State, ct *Contract, fn *types.Func, recv Valu
 	}
 	aenv.names = names
 	prePC := append([]*Term{}, st.pc...)
+	serial0 := callSerial
+	bind := map[*Term]*Term{}
 	for _, e := range ct.Ensures {
-		st.assume(aenv.toBool(aenv.eval(e.Expr)))
+		t := aenv.toBool(aenv.eval(e.Expr))
+		if len(bind) > 0 {
+			t = Subst(t, bind)
+		}
+		// definitional binding: `v == rhs` for a variable v introduced by this call (havocked
+		// location, fresh result, ghost) defines v; substitute instead of keeping an equation
+		for _, c := range conjuncts(t) {
+			if c.Op == "=" {
+				a, b := c.Args[0], c.Args[1]
+				if !(a.Op == "var" && freshBorn[a] > serial0) {
+					a, b = b, a
+				}
+				if a.Op == "var" && freshBorn[a] > serial0 && !occurs(a, b) && a.Sort.K != KArr {
+					m := map[*Term]*Term{a: b}
+					if strings.HasPrefix(a.Name, "ghost.") {
+						if i := strings.LastIndex(a.Name, "@v"); i > 0 {
+							// a ghost field: later reads must see the bound value
+							st.ghost[a.Name[len("ghost."):i]] = b
+						}
+					}
+					st.substAll(m)
+					for i := len(prePC); i < len(st.pc); i++ {
+						st.pc[i] = Subst(st.pc[i], m)
+					}
+					for k, v := range names {
+						names[k] = substValue(v, m)
+					}
+					for i := range res {
+						res[i] = substValue(res[i], m)
+					}
+					for k, v := range bind {
+						bind[k] = Subst(v, m)
+					}
+					bind[a] = b
+					continue
+				}
+			}
+			st.assume(c)
+		}
 	}
 	if len(ct.Ensures) > 0 && !st.infeasible() {
 		// vacuity guard: assuming the callee's postcondition must not make the path contradictory
@@ -602,10 +643,21 @@ func (eng *Engine) VerifyFunc(key string) (rep *FuncReport) {
 			panic(r)
 		}
 	}()
+	for _, c := range eng.contracts {
+		for i := range c.StmtRules {
+			c.StmtRules[i].Used = false
+		}
+	}
 	cases := ex.aliasCases(fi)
 	for _, ac := range cases {
 		ex.tag = ac.tag
 		ex.runCase(fi, ct, ac)
+	}
+	for i := range ct.StmtRules {
+		if !ct.StmtRules[i].Used {
+			rep.Status, rep.Reason = "unsupported", "proof step anchored at statement `"+ct.StmtRules[i].Text+"` did not bind to the current source"
+			return
+		}
 	}
 	rep.Status = "ok"
 	rep.Obligs = ex.obligs
@@ -1146,6 +1198,33 @@ func (eng *Engine) SolveAll(obs []*Oblig) {
 				}
 				return
 			}
+			// first try with the cone of influence of the goal (hypotheses connected to the goal
+			// through shared variables; dropping hypotheses is sound), then with everything
+			sl := coneOfInfluence(o.Hyps, o.Goal)
+			// attempt 0: without quantified hypotheses (often irrelevant and costly)
+			var qf []*Term
+			for _, h := range sl {
+				if !hasQuantifier(h) {
+					qf = append(qf, h)
+				}
+			}
+			if len(qf) < len(sl) {
+				r := Solve(BuildQuery(qf, o.Goal, o.Opaque), eng.timeoutS/3+1, false)
+				if r.Verdict == Proved {
+					r.Detail = fmt.Sprintf("quantifier-free part of the cone of influence: %d of %d hypotheses", len(qf), len(o.Hyps))
+					o.Res = r
+					return
+				}
+			}
+			if len(sl) < len(o.Hyps) {
+				q2 := BuildQuery(sl, o.Goal, o.Opaque)
+				r := Solve(q2, eng.timeoutS/2+1, false)
+				if r.Verdict == Proved {
+					r.Detail = fmt.Sprintf("cone of influence: %d of %d hypotheses", len(sl), len(o.Hyps))
+					o.Res = r
+					return
+				}
+			}
 			o.Res = Solve(q, eng.timeoutS, true)
 		}()
 	}
@@ -1280,4 +1359,105 @@ func (ex *exec) bumpGhost(st *State, o *Obj) {
 			delete(st.ghost, k)
 		}
 	}
+}
+
+// coneOfInfluence keeps the hypotheses transitively connected to the goal through shared
+// variables; closed hypotheses (axioms) are kept when they share an uninterpreted function
+// with the cone.
+func coneOfInfluence(hyps []*Term, goal *Term) []*Term {
+	type syms struct{ vars, ufs map[string]bool }
+	get := func(t *Term) syms {
+		vars, ufs := map[string]*Term{}, map[string]*Term{}
+		collectSyms(t, vars, ufs, map[*Term]bool{})
+		s := syms{map[string]bool{}, map[string]bool{}}
+		for k := range vars {
+			s.vars[k] = true
+		}
+		for k := range ufs {
+			s.ufs[k] = true
+		}
+		return s
+	}
+	hs := make([]syms, len(hyps))
+	for i, h := range hyps {
+		hs[i] = get(h)
+	}
+	g := get(goal)
+	front := g.vars
+	ufs := g.ufs
+	in := make([]bool, len(hyps))
+	for changed := true; changed; {
+		changed = false
+		for i := range hyps {
+			if in[i] {
+				continue
+			}
+			hit := false
+			if len(hs[i].vars) == 0 {
+				for k := range hs[i].ufs {
+					if ufs[k] {
+						hit = true
+						break
+					}
+				}
+			} else {
+				for k := range hs[i].vars {
+					if front[k] {
+						hit = true
+						break
+					}
+				}
+			}
+			if hit {
+				in[i] = true
+				changed = true
+				for k := range hs[i].vars {
+					front[k] = true
+				}
+				for k := range hs[i].ufs {
+					ufs[k] = true
+				}
+			}
+		}
+	}
+	var out []*Term
+	for i, h := range hyps {
+		if in[i] {
+			out = append(out, h)
+		}
+	}
+	return out
+}
+
+func conjuncts(t *Term) []*Term {
+	if t.Op == "and" {
+		return t.Args
+	}
+	return []*Term{t}
+}
+
+var quantMemo = map[*Term]bool{}
+var quantMu sync.Mutex
+
+func hasQuantifier(t *Term) bool {
+	quantMu.Lock()
+	defer quantMu.Unlock()
+	var rec func(t *Term) bool
+	rec = func(t *Term) bool {
+		if v, ok := quantMemo[t]; ok {
+			return v
+		}
+		r := t.Op == "forall" || t.Op == "exists"
+		if !r {
+			for _, a := range t.Args {
+				if rec(a) {
+					r = true
+					break
+				}
+			}
+		}
+		quantMemo[t] = r
+		return r
+	}
+	return rec(t)
 }
